@@ -32,6 +32,8 @@ import (
 
 const deadline = 10 * time.Second
 
+var failures int // findings of any kind so far: a failing scenario costs up to a deadline, stop after a few
+
 func waitFor(cond func() bool) bool { return waitForD(cond, deadline) }
 
 func waitForD(cond func() bool, d time.Duration) bool {
@@ -215,10 +217,12 @@ func runScenario(rep *hx.Report, m *hx.Model, sc scenario) {
 			sig = "taskpool-custom-caller-bound"
 		}
 		rep.Add(hx.Finding{Kind: "oracle", Property: "C19", Signature: sig, What: what + " [" + p.state() + "]", Replay: replay})
+		failures++
 	}
 	mismatch := func(what string) {
 		rep.Add(hx.Finding{Kind: "mismatch", Property: "C19", Signature: "taskpool-model", What: what + " [" + p.state() + "]", Replay: replay})
 		m = nil // the model is out of step from here on: go on with the oracle alone
+		failures++
 	}
 	M := sc.Bound - 1
 	if m != nil {
@@ -422,7 +426,7 @@ func runScenario(rep *hx.Report, m *hx.Model, sc scenario) {
 			oracle("go-hangs", fmt.Sprintf("overload round %d: Go calls did not return", round))
 			return
 		}
-		if !waitFor(func() bool { return atomic.LoadInt64(&p.ended) == base+int64(total) }) {
+		if !waitFor(func() bool { return atomic.LoadInt64(&p.ended) >= base+int64(total) }) {
 			oracle("task-never-ran", fmt.Sprintf("overload round %d: %d of %d accepted tasks ran", round, atomic.LoadInt64(&p.ended)-base, total))
 			return
 		}
@@ -551,7 +555,7 @@ func runScenario(rep *hx.Report, m *hx.Model, sc scenario) {
 
 // ---------- Timer.Async under the real scheduler ----------
 func asyncPart(rep *hx.Report, seed int64, rounds int) {
-	for round := 0; round < rounds && !rep.TooMany() && len(rep.Findings) < 4; round++ {
+	for round := 0; round < rounds && !rep.TooMany() && failures < 7; round++ {
 		r := rand.New(rand.NewSource(seed*31 + int64(round)))
 		tm := timer.New("verif")
 		producers := 1 + r.Intn(4)
@@ -560,6 +564,7 @@ func asyncPart(rep *hx.Report, seed int64, rounds int) {
 		replay := map[string]interface{}{"harness": "taskpool", "part": "async", "producers": producers, "per_producer": per, "backlog_over_1024": backlog, "seed": seed, "round": round}
 		fail := func(sig, what string) {
 			rep.Add(hx.Finding{Kind: "oracle", Property: "C19", Signature: sig, What: what, Replay: replay})
+			failures++
 		}
 		var mu sync.Mutex
 		var order [][2]int
@@ -679,7 +684,7 @@ func main() {
 	r := rand.New(rand.NewSource(*seed))
 	bounds := []int{0, 1, 2, 3, 4, 5, 8}
 	queues := []int{0, 1, 2, 5, 64}
-	for i := 0; i < *n && !rep.TooMany() && len(rep.Findings) < 4; i++ {
+	for i := 0; i < *n && !rep.TooMany() && failures < 5; i++ {
 		sc := scenario{Bound: bounds[r.Intn(len(bounds))], Queue: queues[r.Intn(len(queues))], Custom: r.Intn(3) == 0, IO: r.Intn(5) == 0,
 			Rounds: r.Intn(4), Burst: 5 + r.Intn(56), Subs: 2 + r.Intn(5), Panics: r.Intn(2) == 0, PreStop: r.Intn(12), Racing: []int{0, 0, 3, 8}[r.Intn(4)], Seed: *seed*1009 + int64(i)}
 		if i == 0 {
